@@ -154,6 +154,9 @@ def batch_st(elem):
                        st.lists(st.text(alphabet="ACGT", min_size=1500, max_size=6000), min_size=1, max_size=3),
                        st.lists(st.integers(0, 10_000), min_size=3, max_size=3)).map(_skewed)
     small = st.one_of(st.lists(elem, max_size=50), st.lists(elem, min_size=2, max_size=8))
+    # the same string several times in one batch (reads sequenced twice): positions chosen by the strategy
+    repeated = st.tuples(st.lists(elem, min_size=1, max_size=6), st.lists(st.integers(0, 5), min_size=2, max_size=12)).map(lambda t: [t[0][i % len(t[0])] for i in t[1]])
+    small = st.one_of(small, small, repeated)
     return st.integers(0, 19).flatmap(lambda i: big if i == 0 else (skewed if i == 1 else small))
 
 
